@@ -67,9 +67,7 @@ def main():
     meta["checks"] = res
     dst = os.path.join(VERIF, "seeded", "%s-%s" % (prop, name))
     os.makedirs(dst, exist_ok=True)
-    for f in ("patch.diff", "demo.py", "notes.md"):
-        if os.path.exists(os.path.join(src, f)):
-            shutil.copy(os.path.join(src, f), os.path.join(dst, f))
+    shutil.copytree(src, dst, dirs_exist_ok=True, ignore=shutil.ignore_patterns("__pycache__", "*.o", "*.so", "build*", "a.out"))
     notes = os.path.join(src, "notes.md")
     if os.path.exists(notes):
         meta["needs_to_manifest"] = open(notes).read()[:1500]
